@@ -598,6 +598,18 @@ impl<'a> Tr<'a> {
                                     }
                                 }
                             }
+                            // a Result-returning call in tail position, `f(..)`, is `Ok(f(..)?)` (same error type, or it would not compile)
+                            if matches!(e, syn::Expr::MethodCall(_) | syn::Expr::Call(_)) {
+                                let try_e = syn::Expr::Try(syn::ExprTry { attrs: vec![], expr: Box::new(e.clone()), question_token: Default::default() });
+                                let ok_path = syn::Expr::Path(syn::ExprPath {
+                                    attrs: vec![], qself: None,
+                                    path: syn::Path::from(syn::Ident::new("Ok", e.span())),
+                                });
+                                let mut args = syn::punctuated::Punctuated::new();
+                                args.push(try_e);
+                                let call = syn::Expr::Call(syn::ExprCall { attrs: vec![], func: Box::new(ok_path), paren_token: Default::default(), args });
+                                return self.finish_tail(ctx, Some(&call), tail);
+                            }
                             ctx.bail(e, "tail of a Result function that is neither Ok(..) nor Err(..)");
                         }
                         let a = self.tr_expr(ctx, e);
